@@ -106,20 +106,24 @@ def run(ctx):
         ctx.note_case("root:" + ty)
         if r[0] != "ok":
             ctx.violation("root-block-rejected:" + ty, "%s END is not accepted at the root: %r" % (ty.upper(), r), {"text": t})
-    # ---- time against length
-    sizes = [2000, 20000, 200000] + ([2000000] if ctx.tier == "thorough" else [])
-    for kind in range(3):
-        times = []
-        for n in sizes:
-            t = mutate.repetitive(rng, n)
-            t0 = time.perf_counter()
-            classify(t)
-            times.append((len(t), time.perf_counter() - t0))
-        ctx.coverage.setdefault("timing", []).append([(n, round(s, 4)) for n, s in times])
-        for (n1, s1), (n2, s2) in zip(times, times[1:]):
-            if s1 > 0.02 and s2 / s1 > 4.0 * (n2 / n1):
-                ctx.violation("super-linear-time", "parse time grows faster than 4x linear between %d and %d characters (%.3fs -> %.3fs)" % (n1, n2, s1, s2),
-                              {"text": t[:200], "times": times})
+    # ---- time against length: valid documents (parsed completely) and documents failing at their end
+    sizes = [20000, 200000] + ([2000000] if ctx.tier == "thorough" else [])
+    units = mutate.VALID_UNITS if ctx.tier == "thorough" else rng.sample(mutate.VALID_UNITS, 4)
+    for unit in units:
+        for valid in (True, False):
+            times = []
+            for n in sizes:
+                t = mutate.repetitive(rng, n, unit, valid)
+                t0 = time.perf_counter()
+                r = classify(t)
+                times.append((len(t), time.perf_counter() - t0))
+                if valid and r[0] != "ok":
+                    ctx.violation("long-valid-document-rejected", "a long repetitive valid document was rejected: %r" % (r,), {"text": t[:300]})
+            ctx.coverage.setdefault("timing", []).append({"unit": unit, "valid": valid, "times": [(n, round(s, 4)) for n, s in times]})
+            for (n1, s1), (n2, s2) in zip(times, times[1:]):
+                if s2 > 0.5 and s2 / max(s1, 1e-4) > 4.0 * (n2 / n1):
+                    ctx.violation("super-linear-time", "parse time grows faster than 4x linear between %d and %d characters (%.3fs -> %.3fs)" % (n1, n2, s1, s2),
+                                  {"unit": unit, "valid": valid, "times": times})
     ctx.sample({"mutated": inputs[0][:200]})
     ctx.sample({"soup": inputs[n_mut][:200]})
 
